@@ -780,6 +780,13 @@ Proof.
   eapply (pair_guards_compatible fx H w a b k r); eauto.
 Qed.
 
+(** the same for the tree with the three repairs *)
+Corollary cache_transparent_repaired : forall H w h,
+  injective H -> wf_history h ->
+  g_F4 fx_all H h = false -> g_F6 h = false -> g_F7 h = false ->
+  map sr_out (run_cached fx_all H w [] h) = map fst (run_fresh w h).
+Proof. intros H w h Hi W. apply cache_transparent; auto. Qed.
+
 (* ------------------------------------------------------------------ the hypotheses are satisfiable *)
 
 Definition w_ok : inst :=
